@@ -173,6 +173,12 @@ func (l *lexer) nextToken() (token, error) {
 		return tok, err
 	}
 
+	// The first character was consumed above, so readIdent never sees it: hold it to
+	// the same rule as the rest of the token.
+	if !l.isPrintableCharacter(next) || l.isInvalidTokenCharacter(next) {
+		return tok, fmt.Errorf("invalid character %q found in input at position %d", next, l.pos-1)
+	}
+
 	// All other tokens are identifiers, we also treat numbers as identifiers instead of defining
 	// an unquoted value token type.
 	//
